@@ -60,7 +60,10 @@ BYTE_NAMES = ['fromcsv', 'fromtsv', 'frompickle', 'fromtext',
 CONSUMERS = ['next', 'next', 'next', 'islice', 'head', 'look', 'lookstr',
              'see', 'repr_html', 'rowslice', 'data-slice', 'records-slice',
              'list-head', 'len-head', 'tuple-rowslice', 'header',
-             'fieldnames']
+             'fieldnames', 'default-preview']
+# previews called without a limit: the configured default applies (5 rows)
+DEFAULT_PREVIEWS = ['str', 'repr', 'lookstr', 'look', 'see']
+LOOKLIKE = ('look', 'lookstr', 'see', 'repr_html', 'default-preview')
 # list(v) / tuple(v) / len(v) on a petl view iterate it twice (the length is
 # taken first): the cost is still O(k), with factor 2
 TWICE = ('list-head', 'len-head', 'tuple-rowslice')
@@ -97,7 +100,9 @@ def _look_kw(c):
 
 def _fix(c):
     # limit=0 means "use the configured default" for look/see/display
-    if c['kind'] in ('look', 'lookstr', 'see', 'repr_html') and c['k'] == 0:
+    if c['kind'] == 'default-preview':
+        c['k'] = 5          # petl.config.look_limit / see_limit as shipped
+    if c['kind'] in LOOKLIKE and c['k'] == 0:
         c['k'] = 1
     return c
 
@@ -151,6 +156,8 @@ def gen_case(rng, tier, g):
     for i in range(ncons):
         consumers.append(_fix({'kind': rng.choice(kinds),
                                'k': rng.choice([0, 1, 2, 3, 5, 8, 12])}))
+        if consumers[-1]['kind'] == 'default-preview':
+            consumers[-1]['how'] = rng.choice(DEFAULT_PREVIEWS)
         if consumers[-1]['kind'] in LOOK_KW and rng.random() < 0.4:
             # documented formatting arguments of the look-style consumers
             consumers[-1]['kw'] = rng.choice(LOOK_KW[consumers[-1]['kind']])
@@ -280,6 +287,19 @@ def _run_consumer(e, view, c, tid, items):
         if kind == 'see':
             str(e.see(view, limit=k, **_look_kw(c)))
             return k
+        if kind == 'default-preview':
+            how = c.get('how', 'str')
+            if how == 'str':
+                str(e.wrap(view))
+            elif how == 'repr':
+                repr(e.wrap(view))
+            elif how == 'lookstr':
+                str(e.lookstr(view))
+            elif how == 'look':
+                str(e.look(view))
+            else:
+                str(e.see(view))
+            return k
         if kind == 'repr_html':
             import petl.config as config
             saved = config.display_limit
@@ -297,7 +317,7 @@ def _run_consumer(e, view, c, tid, items):
 def _demand(c):
     if c['kind'] in ('header', 'fieldnames'):
         return 0
-    if c['kind'] in ('look', 'lookstr', 'see', 'repr_html'):
+    if c['kind'] in LOOKLIKE:
         return c['k'] + 1 if c['k'] > 0 else 0
     return c['k']
 
@@ -452,8 +472,7 @@ def _one_length(e, case, total, log, sb, poison):
             # exhausts the short source.
             for ti, c in enumerate(cons):
                 tid = 'c%d' % ti
-                if c['kind'] in ('look', 'lookstr', 'see', 'repr_html',
-                                 'header', 'fieldnames') + TWICE:
+                if c['kind'] in LOOKLIKE + ('header', 'fieldnames') + TWICE:
                     continue
                 d, done_ = res.get(tid, (0, True))
                 if done_ or d != _demand(c) or d == 0:
